@@ -10,7 +10,7 @@ CLAIMED = {
    ref="DESIGN.md 6.1, 6.2, 7 (C06)",
    note="Trusted: TLC, the simulated transport (stops reading after loseConnection like Twisted TCP), Twisted's Deferred. Bounds: 3 ids + 1 foreign in the exhaustive model; larger request sets only sampled (seeded)."),
  "C10": dict(
-   text="BrokerConn.tla is model-checked for re-send set/order, no re-send of completed requests, once per connection, reconnect-iff-pending, backoff policy and close, with connection loss enabled in every state (incl. mid-frame, connecting, backoff); the same behaviours and seeded random fault schedules are executed on the real _KafkaBrokerClient and validated step by step by TLC.",
+   text="BrokerConn.tla is model-checked for re-send set/order, no re-send of completed requests, once per connection, reconnect-iff-pending, backoff policy and close, with connection loss enabled in every state (incl. mid-frame, connecting, backoff), connection attempts that complete later, synchronously inside connect(), or from inside the cancellation by close(); the same behaviours and seeded random fault schedules are executed on the real _KafkaBrokerClient and validated step by step by TLC.",
    ref="DESIGN.md 6.1, 7 (C10)",
    note="Trusted: TLC, simulated network/clock. The retry policy is an explicit table (0.1, 0.2, 0.4 s) rather than Twisted's jittered default."),
  "C18": dict(
